@@ -3,7 +3,7 @@ CONSTANTS
   VALS = {"v1", "v2", "v3"}
   FORD <- c_FORD
   TOKENS = {"t1", "t2"}
-  FIX = {"L7", "L8", "FROMTO"}
+  FIX = {"L7", "L8", "FROMTO", "WINDOW", "L26", "RPNIL"}
   CFGS <- c_CFGS
   PSS <- c_PSS
   PSS2 <- c_PSS2
@@ -14,8 +14,10 @@ CONSTANTS
   MAXTX = 2
   MAXOPS = 11
   MAXRESTART = 1
+  UPDENDS = {}
+  MAXUPD = 0
   SECONDBAD = FALSE
   FAILBUDGET = 99
 VIEW View
-INVARIANTS InvNoGaps InvConsecutive InvRetention InvFinal InvCarry InvRestartEq
+INVARIANTS InvNoGaps InvConsecutive InvRetention InvFinal InvCarry InvRestartEq InvNoHalt
 CHECK_DEADLOCK FALSE
